@@ -11,6 +11,8 @@ type RunFn = fn(&mut Global);
 fn table() -> Vec<(&'static str, RunFn)> {
     vec![
         ("C01", props::c01::run as RunFn),
+        ("C02", props::c02::run as RunFn),
+        ("C03", props::c03::run as RunFn),
     ]
 }
 
